@@ -292,6 +292,15 @@ func uriSamples(t *rapid.T, label string) []fmtSample {
 		// an authority without a host name: only a port and / or user info
 		{scheme + "://" + rapid.SampledFrom([]string{":80", ":", ":8080"}).Draw(t, label+"PO") + path + q, false},
 		{scheme + "://user@" + port + path, false},
+		// a fragment is part of a URI, with or without a path before it
+		{scheme + "://" + host + port + path + q + "#top", true},
+		{scheme + "://" + host + port + "#top", true},
+		// characters no URI contains (a blank, angle brackets, braces, a bar, a caret, a backquote,
+		// a backslash, a double quote), wherever they stand; a second '#'; a second '@' in the authority
+		{ok + rapid.SampledFrom([]string{" ", "/a b", "/ ", "?a b", "/<a>", "/{a}", "/a|b", "/a^b", "/a`b", "/a\\b", "/a\"b"}).Draw(t, label+"Bad"), false},
+		{scheme + "://exa" + rapid.SampledFrom([]string{"<", ">", "\"", " ", "{", "|"}).Draw(t, label+"BadHost") + "mple.com" + path, false},
+		{ok + "#a#b", false},
+		{scheme + "://a@b@" + host + path, false},
 	}
 }
 
